@@ -1202,6 +1202,24 @@ impl DcpsDomainParticipant {
                                         .status_condition
                                         .add_communication_state(StatusKind::PublicationMatched);
                                 } else {
+                                    // A matched reader whose QoS became incompatible is unmatched
+                                    let subscription_key =
+                                        discovered_reader_data.dds_subscription_data.key().value;
+                                    if data_writer
+                                        .matched_subscription_list
+                                        .iter()
+                                        .any(|x| x.key().value == subscription_key)
+                                    {
+                                        data_writer.remove_matched_subscription(
+                                            &InstanceHandle::new(subscription_key),
+                                        );
+                                        data_writer
+                                            .transport_writer
+                                            .delete_matched_reader(subscription_key.into());
+                                        data_writer.status_condition.add_communication_state(
+                                            StatusKind::PublicationMatched,
+                                        );
+                                    }
                                     data_writer
                                         .incompatible_subscriptions
                                         .add_incompatible_subscription(
@@ -1742,6 +1760,21 @@ impl DcpsDomainParticipant {
                                         .status_condition
                                         .add_communication_state(StatusKind::SubscriptionMatched);
                                 } else {
+                                    // A matched writer whose QoS became incompatible is unmatched
+                                    let publication_key =
+                                        discovered_writer_data.dds_publication_data.key().value;
+                                    if data_reader
+                                        .matched_publication_list
+                                        .iter()
+                                        .any(|x| x.key().value == publication_key)
+                                    {
+                                        data_reader.remove_matched_publication(
+                                            &InstanceHandle::new(publication_key),
+                                        );
+                                        data_reader
+                                            .transport_reader
+                                            .delete_matched_writer(publication_key.into());
+                                    }
                                     data_reader.add_requested_incompatible_qos(
                                         InstanceHandle::new(
                                             discovered_writer_data.dds_publication_data.key().value,
